@@ -2,9 +2,11 @@
 
 Proof obligations: Props/C07.v (theorems over all mapper lists / hierarchies / nesting depths of the
 model Ser/Mappers.v).
-Tie to the code: generated class hierarchies (depth <= 3, every assignment of {none, dict,
-TO_LOWERCASE, TO_CAMELCASE, list chain} per class, nested classes with their own mappers reached
-directly and through Array/Set, three field-name shapes) are realised as real typedpy classes;
+Tie to the code: Gen/MapperSites.v (nested-mapper lookup/store sites and enum dispatch, regenerated from
+the AST on every run; harness/genmods/mapper_sites.py); generated class hierarchies (depth <= 3, every
+assignment of {none, dict, TO_LOWERCASE, TO_CAMELCASE, list chain} per class, nested classes with their
+own mappers reached directly and through Array/Set, three field-name shapes) plus the enumerated
+sibling-rename and falsy-value lattices of harness/c07lattice.py are realised as real typedpy classes;
 the aggregated mapper dicts, the Serializer output and the Deserializer result are compared inside
 Coq with the model evaluated by vm_compute on the same inputs.
 Violation search: the statement's clauses (key set at every level = image under rename_chain of
@@ -131,6 +133,23 @@ def renamed_nested_entry(h, L):
     return False
 
 
+def sibling_reuse(h, L):
+    """how a field's final key relates to its siblings' NAMES: 'nested' = a nested field's key is the
+    name of another nested field (the two '<x>._mapper' entries compete), 'any' = some field's key is
+    another field's name, 'no' otherwise"""
+    fs = all_fields(h)
+    names = {n for n, _ in fs}
+    nested = {n for n, fk in fs if fk is not None}
+    out = "no"
+    for n, fk in fs:
+        k = py_chain(L, n)
+        if k is not None and k != n and k in names:
+            if fk is not None and k in nested:
+                return "nested"
+            out = "any"
+    return out
+
+
 def used_list(h, override, flag):
     base = [["dict", override]] if override else decl_list(h)
     return base + (["camel"] if flag else [])
@@ -171,7 +190,24 @@ class Gen:
         entries = []
         used_keys = set()
         cur = {n: py_chain(cur_list, n) for n in names}
-        for n in rnd.sample(names, min(len(names), rnd.randint(1, 3))):
+        if len(names) >= 2 and rnd.random() < 0.22:
+            # a shift / cycle over sibling names: f1 -> (name or current key of) f2 -> ... -> fresh or f1;
+            # nested fields are preferred so that nested '<x>._mapper' entries change owner
+            nested = [f[0] for f in fields_so_far if f[1] is not None]
+            pool = (nested if len(nested) >= 2 and rnd.random() < 0.7 else names)
+            chain = rnd.sample(pool, min(len(pool), rnd.choice([2, 2, 3])))
+            last = rnd.choice([chain[0], rnd.choice(FRESH), rnd.choice(FRESH)])
+            by_cur = rnd.random() < 0.6
+            for i, n in enumerate(chain):
+                key = cur[n] if (by_cur and cur[n] is not None) else n
+                tgt = chain[i + 1] if i + 1 < len(chain) else last
+                if by_cur and tgt in cur and cur[tgt] is not None and rnd.random() < 0.5:
+                    tgt = cur[tgt]
+                if key not in used_keys:
+                    used_keys.add(key)
+                    entries.append([key, ["key", tgt]])
+            names = [n for n in names if n not in chain]
+        for n in rnd.sample(names, min(len(names), rnd.randint(0 if entries else 1, 3))):
             key = cur[n] if (rnd.random() < 0.75 and cur[n] is not None) else n
             if key in used_keys:
                 continue
@@ -261,6 +297,9 @@ class Gen:
                 cur_list = cur_list + ([d[1]] if d[0] == "one" else list(d[1]))
             levels.append({"fields": fs, "decl": d})
         self.uid += 1
+        # scalar fields of the random stream are Integers (the model copies scalars and knows no field
+        # types: a value that lands in a field of another type through a key collision would be a
+        # TypeError there); String / Boolean / Float fields are exercised by the falsy lattice
         return {"levels": levels, "name": "K%d" % self.uid, "immutable": immutable}
 
     def instance(self, h, force_first=False):
@@ -271,7 +310,17 @@ class Gen:
                 continue
             if fk is None:
                 self.val += 1
-                out.append([n, ["s", self.val]])
+                ty = (h.get("types") or {}).get(n, "Integer")
+                falsy = i and rnd.random() < 0.15
+                if ty == "Integer":
+                    code = 0 if falsy else self.val
+                elif ty == "String":
+                    code = 2 * T + (rnd.randrange(len(STRS)) if (falsy or rnd.random() < 0.3) else len(STRS) + self.val)
+                elif ty == "Boolean":
+                    code = T + (0 if falsy else rnd.randrange(2))
+                else:
+                    code = 3 * T + (0 if falsy else rnd.randrange(1, 40))
+                out.append([n, ["s", code]])
             elif fk[0] == "ref":
                 out.append([n, ["st", self.instance(fk[1])]])
             else:
@@ -332,15 +381,61 @@ def gen_cases(rnd, tier):
     assigns = []
     for depth in (1, 2, 3):
         assigns += list(itertools.product(ASSIGN, repeat=depth))
-    reps = 4 if tier == "quick" else 24
+    reps = 4 if tier == "quick" else 20
     for r in range(reps):
         for asg in assigns:
             nest = 0 if r == 0 else rnd.choice([0, 1, 2, 2])
             h = g.hclass(asg, nest)
             x = g.instance(h)
             ov = g.override(h) if rnd.random() < 0.15 else None
-            cases.append({"h": h, "override": ov, "x": x})
-    return cases + [copy.deepcopy(c) for c in FIXED]
+            cases.append({"h": h, "override": ov, "x": x, "entry": rnd.choice(["wrapper", "wrapper", "function"]),
+                          "stream": "mappers"})
+    cases += [dict(copy.deepcopy(c), entry="wrapper", stream="mappers") for c in FIXED]
+    from harness import c07lattice
+    cases += c07lattice.sibling_cases(rnd, tier)
+    cases += c07lattice.falsy_cases(rnd, tier)
+    for i, c in enumerate(cases):
+        c["history"] = "other-mapper-first" if (i // 2) % 2 else "fresh"
+    return cases
+
+
+# ------------------------------------------------------------------ scalar tokens
+# The model copies scalars; a scalar of any of the generated field types is an opaque integer token.
+
+T = 10 ** 7
+STRS = ["", "a", "0", "x y", "None", "._mapper"]
+
+
+def dec_scalar(code):
+    if abs(code) < T:
+        return code
+    kind, k = divmod(code, T)
+    if kind == 1:
+        return bool(k)
+    if kind == 2:
+        return STRS[k] if k < len(STRS) else "s%d" % k
+    if kind == 3:
+        return k / 2.0
+    raise ValueError(code)
+
+
+def enc_scalar(v):
+    if v is True or v is False:
+        return T + int(v)
+    if isinstance(v, int) and not isinstance(v, bool) and abs(v) < T:
+        return v
+    if isinstance(v, str):
+        if v in STRS:
+            return 2 * T + STRS.index(v)
+        if v[:1] == "s" and v[1:].isdigit() and str(int(v[1:])) == v[1:] and len(STRS) <= int(v[1:]) < T:
+            return 2 * T + int(v[1:])
+    if isinstance(v, float) and v >= 0 and v * 2 == int(v * 2) and v * 2 < T:
+        return 3 * T + int(v * 2)
+    raise Unreifiable(repr(v))
+
+
+def scalar_type(code):
+    return {0: "Integer", 1: "Boolean", 2: "String", 3: "Float"}[0 if abs(code) < T else code // T]
 
 
 # ------------------------------------------------------------------ realisation
@@ -378,7 +473,7 @@ def class_src(h, prefix, out, names):
         lines = ["class %s(%s):" % (cname, base)]
         for n, fk in lv["fields"]:
             if fk is None:
-                lines.append("    %s = Integer" % n)
+                lines.append("    %s = %s" % (n, (h.get("types") or {}).get(n, "Integer")))
             else:
                 inner = names[id(fk[1])]
                 lines.append("    %s = %s" % (n, {"ref": inner, "arr": "Array[%s]" % inner, "set": "Set[%s]" % inner}[fk[0]]))
@@ -394,8 +489,8 @@ def class_src(h, prefix, out, names):
     names[id(h)] = base
 
 
-IMPORTS = ("from typedpy import Structure, ImmutableStructure, Integer, Array, Set, mappers, DoNotSerialize, "
-           "Serializer, Deserializer\n")
+IMPORTS = ("from typedpy import Structure, ImmutableStructure, Integer, String, Boolean, Float, Array, Set, mappers, "
+           "DoNotSerialize, Serializer, Deserializer, serialize, deserialize_structure\n")
 
 
 def realize(h, prefix):
@@ -415,7 +510,7 @@ def build_instance(h, x, classes):
     for n, v in x:
         fk = kinds[n]
         if v[0] == "s":
-            kw[n] = v[1]
+            kw[n] = dec_scalar(v[1])
         elif v[0] == "st":
             kw[n] = build_instance(fk[1], v[1], classes)
         else:
@@ -458,22 +553,25 @@ def reify_amap(d):
 
 
 def min_scalar(d):
+    """sort key of a collection item: the LARGEST plain int inside it (every generated item holds a
+    unique counter value larger than all values generated before it, so this is generation order;
+    tokens of other scalar types and falsy values do not take part)"""
     if isinstance(d, bool):
-        return 1 << 60
+        return -1
     if isinstance(d, int):
         return d
     if isinstance(d, dict):
-        return min([min_scalar(v) for v in d.values()] or [1 << 60])
+        return max([min_scalar(v) for v in d.values()] or [-1])
     if isinstance(d, (list, tuple, set, frozenset)):
-        return min([min_scalar(v) for v in d] or [1 << 60])
-    return 1 << 60
+        return max([min_scalar(v) for v in d] or [-1])
+    return -1
 
 
 def reify_doc(d):
-    if isinstance(d, bool) or d is None:
+    if d is None:
         raise Unreifiable(repr(d))
-    if isinstance(d, int):
-        return ["s", d]
+    if isinstance(d, (bool, int, str, float)):
+        return ["s", enc_scalar(d)]
     if isinstance(d, dict):
         out = []
         for k, v in d.items():
@@ -489,15 +587,15 @@ def reify_doc(d):
 def inst_min(obj):
     from typedpy import Structure
     if isinstance(obj, bool):
-        return 1 << 60
+        return -1
     if isinstance(obj, int):
         return obj
     if isinstance(obj, Structure):
         vals = [inst_min(getattr(obj, n, None)) for n in type(obj).get_all_fields_by_name()]
-        return min(vals or [1 << 60])
+        return max(vals or [-1])
     if isinstance(obj, (list, set, frozenset, tuple)):
-        return min([inst_min(v) for v in obj] or [1 << 60])
-    return 1 << 60
+        return max([inst_min(v) for v in obj] or [-1])
+    return -1
 
 
 def reify_inst(obj):
@@ -509,10 +607,8 @@ def reify_inst(obj):
         v = getattr(obj, n, None)
         if v is None:
             continue
-        if isinstance(v, bool):
-            raise Unreifiable(repr(v))
-        if isinstance(v, int):
-            out.append([n, ["s", v]])
+        if isinstance(v, (bool, int, str, float)):
+            out.append([n, ["s", enc_scalar(v)]])
         elif isinstance(v, Structure):
             out.append([n, ["st", reify_inst(v)]])
         elif isinstance(v, (list, set, frozenset, tuple)):
@@ -540,29 +636,53 @@ def guarded(f, reifier):
 
 def run_impl(case, idx, prefix="C"):
     """realise the classes of a case and observe the implementation"""
-    from typedpy import Serializer, Deserializer
+    from typedpy import Serializer, Deserializer, serialize, deserialize_structure
     from typedpy.serialization.mappers import aggregate_serialization_mappers, aggregate_deserialization_mappers
     h, ov, x = case["h"], case["override"], case["x"]
+    fn = case.get("entry") == "function"
     classes, src = realize(h, "%s%d" % (prefix, idx))
     cls = classes[id(h)]
     inst = build_instance(h, x, classes)
     ovr = realize_amap(ov) if ov else None
     obs = {}
+    if case.get("history") == "other-mapper-first":
+        # the process-wide cache aggregated_mapper_by_class has already served this class under ANOTHER
+        # explicit mapper (or none) and under both values of the flag
+        names = [f[0] for f in all_fields(h)]
+        other = None if ovr else {names[0]: "zz_pre", names[-1]: "zz_pre2"}
+        for flag in (True, False):
+            try:
+                serialize(inst, mapper=copy.deepcopy(other), camel_case_convert=flag)
+                deserialize_structure(cls, {}, mapper=copy.deepcopy(other), camel_case_convert=flag, keep_undefined=False)
+            except Exception:  # noqa
+                pass
     order = [False, True] if idx % 2 == 0 else [True, False]
     for flag in order:
         o = {}
         o["ser_agg"], _ = guarded(lambda: aggregate_serialization_mappers(cls, copy.deepcopy(ovr), flag), reify_amap)
         o["des_agg"], _ = guarded(lambda: aggregate_deserialization_mappers(cls, copy.deepcopy(ovr), flag), reify_amap)
-        o["doc"], doc = guarded(
-            lambda: (Serializer(inst, mapper=copy.deepcopy(ovr)) if ovr else Serializer(inst)).serialize(
-                camel_case_convert=flag), reify_doc)
+        if fn:
+            o["doc"], doc = guarded(lambda: serialize(inst, mapper=copy.deepcopy(ovr), camel_case_convert=flag), reify_doc)
+        else:
+            o["doc"], doc = guarded(
+                lambda: (Serializer(inst, mapper=copy.deepcopy(ovr)) if ovr else Serializer(inst)).serialize(
+                    camel_case_convert=flag), reify_doc)
         if doc is not None:
             def back():
+                if fn:
+                    return deserialize_structure(cls, copy.deepcopy(doc), mapper=copy.deepcopy(ovr),
+                                                 camel_case_convert=flag, keep_undefined=False)
                 d = (Deserializer(cls, mapper=copy.deepcopy(ovr), camel_case_convert=flag) if ovr
                      else Deserializer(cls, camel_case_convert=flag))
                 return d.deserialize(copy.deepcopy(doc))
             o["back"], b = guarded(back, reify_inst)
             o["rt_equal"] = (b is not None) and (b == inst) and (inst == b)
+            if fn:
+                # the function's own default (keep_undefined=True)
+                dflt, bd = guarded(lambda: deserialize_structure(cls, copy.deepcopy(doc), mapper=copy.deepcopy(ovr),
+                                                                 camel_case_convert=flag), reify_inst)
+                o["default_equal"] = (bd is not None) and (bd == inst) and (inst == bd)
+                o["default_fields_equal"] = dflt[0] == "ok" and o["back"][0] == "ok" and dflt[1] == o["back"][1]
         else:
             o["back"], o["rt_equal"] = ("raise", "Skipped", "no document"), False
         o["doc_py"] = doc
@@ -667,6 +787,7 @@ QUERIES = [
     ("rt_app_F", "(rt_applicable false)"), ("rt_app_T", "(rt_applicable true)"),
     ("rt_cap_F", "(rt_capture false)"), ("rt_cap_T", "(rt_capture true)"),
     ("rt_mod_F", "(rt_model_agrees false)"), ("rt_mod_T", "(rt_model_agrees true)"),
+    ("rt_unm_F", "(fun c => is_unmodelled (model_back false c))"), ("rt_unm_T", "(fun c => is_unmodelled (model_back true c))"),
     ("deep2", "deep2"),
     ("sk_F", "(spec_keys_fail false)"), ("sk_T", "(spec_keys_fail true)"),
     ("spec_ser", "(fun c => spec_agg_fail false false c || spec_agg_fail false true c || spec_keys_fail false c || spec_keys_fail true c)"),
@@ -705,8 +826,69 @@ def observed_keys(d):
     return None
 
 
+def py_agg_ok(h, L, entries, des):
+    """Python rendering of C07chk.agg_ok: the observed aggregated mapper (reified entries) against the
+    declarative chain, at every level"""
+    o = {k: v for k, v in entries}
+    for n, fk in all_fields(h):
+        want = py_chain(L, n)
+        got = o.get(n)
+        if got is None or (got != ["donot"] if want is None else got != ["key", want]):
+            return False
+        if fk is None:
+            continue
+        sub = None
+        if des and want is not None:
+            sub = o.get(want + SUFFIX)
+        if sub is None:
+            sub = o.get(n + SUFFIX)
+        if sub is not None and sub[0] == "sub":
+            if not py_agg_ok(fk[1], nested_list(L, n, fk[1]), sub[1], des):
+                return False
+        elif all_fields(fk[1]) and not (des and want is None):
+            return False
+    return True
+
+
+def full_instance(h, counter):
+    """every field populated, one element per collection"""
+    out = []
+    for n, fk in all_fields(h):
+        if fk is None:
+            counter[0] += 1
+            out.append([n, ["s", counter[0]]])
+        elif fk[0] == "ref":
+            out.append([n, ["st", full_instance(fk[1], counter)]])
+        else:
+            out.append([n, ["l", [["st", full_instance(fk[1], counter)]]]])
+    return out
+
+
+def doc_clause_fails(case, obs):
+    """the key-set clause evaluated in Python on the observed documents (as replay does)"""
+    for flag in (False, True):
+        o = obs[flag]
+        if o["doc_py"] is None:
+            return True
+        want = expected_keys(case["h"], used_list(case["h"], case["override"], flag), case["x"])
+        if canon_keys(observed_keys(o["doc_py"])) != canon_keys(want):
+            return True
+    return False
+
+
+def canon_keys(t):
+    """key structures compare order-free in their lists"""
+    import json
+    if isinstance(t, dict):
+        return {k: canon_keys(v) for k, v in t.items()}
+    if isinstance(t, list):
+        return sorted((canon_keys(v) for v in t), key=lambda v: json.dumps(v, sort_keys=True))
+    return t
+
+
 def replay(obj):
-    case = {"h": obj["h"], "override": obj.get("override"), "x": obj["x"]}
+    case = {"h": obj["h"], "override": obj.get("override"), "x": obj["x"], "entry": obj.get("entry", "wrapper"),
+            "history": obj.get("history", "fresh")}
     if obj.get("wrapper"):
         return replay_wrapper(obj)
     obs, src, cls, inst = run_impl(case, 0, prefix="R%d" % random.randrange(10 ** 6))
@@ -718,7 +900,8 @@ def replay(obj):
         L = used_list(case["h"], case["override"], flag)
         want = expected_keys(case["h"], L, case["x"])
         got = observed_keys(o["doc_py"]) if o["doc_py"] is not None else o["doc"]
-        print("camel_case_convert=%s" % flag)
+        print("camel_case_convert=%s   entry point: %s" % (flag, "serialize()/deserialize_structure(keep_undefined=False)"
+                                                        if case["entry"] == "function" else "Serializer/Deserializer"))
         print("  declared mapper chain      :", L)
         print("  aggregated (serialization) :", o["ser_agg"])
         print("  aggregated (deserialization):", o["des_agg"])
@@ -726,12 +909,25 @@ def replay(obj):
         print("  key sets observed          :", got)
         print("  key sets required (chain)  :", want)
         print("  round trip equal           :", o["rt_equal"], "" if o["back"][0] == "ok" else o["back"])
-        if got != want:
+        if canon_keys(got) != canon_keys(want):
             bad = 1
             print("  FAILS: key sets differ from the image under the declared chain")
+        for des, name in ((False, "ser_agg"), (True, "des_agg")):
+            if o[name][0] != "ok" or not py_agg_ok(case["h"], L, o[name][1], des):
+                print("  aggregated %s mapper differs from the declared chain (the document of an instance that "
+                      "populates the affected field shows it)" % ("deserialization" if des else "serialization"))
+                if obj.get("clause") == "agg":
+                    bad = 1
+                    print("  FAILS: aggregated mapper is not the rename chain")
         if not o["rt_equal"] and obj.get("clause") == "roundtrip" and obj.get("flag") == flag:
             bad = 1
             print("  FAILS: Deserializer(cls).deserialize(Serializer(x).serialize()) != x")
+        if obj.get("clause") == "roundtrip-default" and obj.get("flag") == flag:
+            print("  round trip equal with deserialize_structure's defaults:", o.get("default_equal"),
+                  " fields equal:", o.get("default_fields_equal"))
+            if o.get("default_equal") is False:
+                bad = 1
+                print("  FAILS: deserialize_structure(cls, serialize(x)) != x")
     if not bad:
         print("no clause of C07 fails on this input now")
     return bad
@@ -799,7 +995,9 @@ def run(rep, tier):
         "field names and mapper keys are ASCII identifiers (hypothesis `ident` of the theorems; the generator's three shapes)",
         "rename-only fragment: mapper values are str / DoNotSerialize / nested dict; FunctionCall, Constant, "
         "mappers.CONFIGURATION and structures inside Map values are outside the claim",
-        "value-level serialization is abstracted as identity on scalars (Integer fields) and structural on nested documents",
+        "value-level serialization is abstracted as identity on scalars (opaque tokens: Integer fields; String/Boolean/Float "
+        "fields in the falsy lattice) and structural on nested documents; the model has no field types",
+        "collections compare order-free (serialized Sets have no order; the order of an Array is not a matter of this property)",
         "single inheritance chains; `_deserialization_mapper` is not declared (the serialization mapper serves both directions)",
         "undefined extra attributes created by deserialization are outside the model (the real == sees them)",
     ]
@@ -812,19 +1010,34 @@ def run(rep, tier):
         except Exception as e:  # noqa  -- class statement / construction rejected: not a case of this property
             observed.append(None)
             skipped += 1
-            rep.stat("mappers", "skipped:" + type(e).__name__)
+            rep.stat(case.get("stream", "mappers"), "skipped:" + type(e).__name__)
             continue
         observed.append((obs, src))
         asg = tuple("none" if lv["decl"] is None else (lv["decl"][1] if lv["decl"][0] == "one" and isinstance(lv["decl"][1], str)
                                                          else ("dict" if lv["decl"][0] == "one" else "list"))
                     for lv in case["h"]["levels"])
         nest = tuple(sorted({fk[0] for _, fk in all_fields(case["h"]) if fk is not None}))
-        rep.count("mappers", 1, (asg, nest, bool(case["override"])))
-        rep.stat("mappers", "depth:%d" % len(case["h"]["levels"]))
-        rep.stat("mappers", "nested:" + ("+".join(nest) or "flat"))
+        stream = case.get("stream", "mappers")
+        if stream == "mappers":
+            rep.count(stream, 1, (asg, nest, bool(case["override"])))
+        else:
+            kinds = tuple(fk[0] if fk else "scalar" for _, fk in case["h"]["levels"][0]["fields"])
+            L0 = used_list(case["h"], case["override"], False)
+            ren = tuple(py_chain(L0, n) for n, _ in case["h"]["levels"][0]["fields"])
+            rep.count(stream, 1, (kinds, ren, asg, bool(case["override"])))
+        rep.stat(stream, "depth:%d" % len(case["h"]["levels"]))
+        rep.stat(stream, "nested:" + ("+".join(nest) or "flat"))
+        rep.stat(stream, "entry:" + case.get("entry", "wrapper"))
+        rep.stat(stream, "history:" + case.get("history", "fresh"))
+        rep.stat(stream, "sibling-name-reused-as-key:%s" % sibling_reuse(case["h"], used_list(case["h"], case["override"], False)))
+        for n, v in case["x"]:
+            if v[0] == "s":
+                rep.stat(stream, "scalar:%s%s" % (scalar_type(v[1]), "(falsy)" if not dec_scalar(v[1]) else ""))
+            elif not v[1]:
+                rep.stat(stream, "nested-value:empty")
         for flag in (False, True):
-            rep.stat("mappers", "doc:" + obs[flag]["doc"][0])
-            rep.stat("mappers", "roundtrip:" + ("equal" if obs[flag]["rt_equal"] else "differs"))
+            rep.stat(stream, "doc:" + obs[flag]["doc"][0])
+            rep.stat(stream, "roundtrip:" + ("equal" if obs[flag]["rt_equal"] else "differs"))
     if skipped * 10 > len(cases):
         rep.broken("generator", f"{skipped} of {len(cases)} generated hierarchies were rejected by typedpy")
     live = [(i, c, o) for i, (c, o) in enumerate(zip(cases, observed)) if o is not None]
@@ -836,12 +1049,13 @@ def run(rep, tier):
                     {"h": cases[i]["h"], "override": cases[i]["override"], "x": cases[i]["x"],
                      "python": python_src(cases[i], observed[i][1])})
     live = [t for t in live if t[0] not in unre]
-    for i, c, o in live[:2] + live[-len(FIXED):][:1]:
+    for i, c, o in live[:2] + [t for t in live if t[1].get("stream") != "mappers"][:2]:
         rep.sample({"classes": o[1], "instance": c["x"], "override": c["override"],
                     "document": repr(o[0][False]["doc_py"]), "document_camel": repr(o[0][True]["doc_py"])})
     # wrapper stream
     wcases = []
-    for i, case, o in live[:: (2 if tier == "quick" else 1)]:
+    for i, case, o in [t for t in live if t[1].get("stream", "mappers") == "mappers"][:: (2 if tier == "quick" else 1)] + \
+            [t for t in live if t[1].get("stream", "mappers") != "mappers"][::7]:
         try:
             classes, src = realize(case["h"], "W%d" % i)
             inst = build_instance(case["h"], case["x"], classes)
@@ -874,6 +1088,12 @@ def run(rep, tier):
              for fs, ks, r in wcases])
         wbody += "Eval vm_compute in (indices_where wmismatch wcases 0).\n"
         res = core.eval_cases(shards + [wbody], "c07", HEADER)
+        # a coqc process lost to the machine (killed under memory pressure, ...) is not a verdict: evaluate a
+        # failed shard once more on its own before reporting it
+        for si, (rc, out, err) in enumerate(res):
+            want = 1 if si == len(res) - 1 else len(QUERIES)
+            if rc != 0 or len(core.parse_eval(out)) != want:
+                res[si] = core.eval_cases([(shards + [wbody])[si]], "c07r%d" % si, HEADER)[0]
         sets = {name: set() for name, _ in QUERIES}
         bad_shard = None
         for si, (rc, out, err) in enumerate(res[:-1]):
@@ -909,19 +1129,45 @@ def run(rep, tier):
                        f"{len(sets['unmodelled'])} of {len(live)} cases fall outside the model's domain: inconclusive")
         # spec clauses -> findings
         by_idx = {i: (c, o) for i, c, o in live}
-        for i in sorted(sets["spec_fail"]):
+        doc_level = sets["sk_F"] | sets["sk_T"]
+        # cases that also deviate from the model of the pinned code get the (unlisted) key below: report one
+        # whose DOCUMENT shows the failure, so that the replay is a failing input of the property itself
+        # (a deviation in the deserialization RESULT only does not explain a wrong aggregated mapper / document:
+        # those are judged by the round-trip clause below)
+        mm_spec = sets["m_ser_agg"] | sets["m_des_agg"] | sets["m_doc"]
+        viol = sorted((i for i in sets["spec_fail"] if i in mm_spec), key=lambda i: (i not in doc_level, i))
+        order = viol + sorted(i for i in sets["spec_fail"] if i not in mm_spec)
+        witness = {}
+        if viol and viol[0] not in doc_level:
+            # only aggregated mappers deviate so far: look for an instance whose document shows it --
+            # the same classes with every field populated
+            for i in viol[:40]:
+                c, o = by_idx[i]
+                c2 = dict(c, x=full_instance(c["h"], [900000]))
+                try:
+                    obs2, src2, _, _ = run_impl(c2, i, prefix="S")
+                except Exception:  # noqa
+                    continue
+                if doc_clause_fails(c2, obs2):
+                    witness[i] = (c2, (obs2, src2))
+                    order.remove(i)
+                    order.insert(0, i)
+                    break
+        for i in order:
             c, o = by_idx[i]
-            if i not in sets["mismatch"] and has_gap(c["h"]):
+            if i in witness:
+                c, o = witness[i]
+            if i not in mm_spec and has_gap(c["h"]):
                 key = "C07/agg/inherited-mapper-reapplied"
                 what = ("a class that declares no mapper of its own collects its parent's declaration a second time "
                         "(getattr inheritance in _get_all_values_of_attribute): keys differ from the declared chain")
-            elif (i not in sets["mismatch"] and i not in sets["spec_ser"]
+            elif (i not in mm_spec and i not in sets["spec_ser"]
                   and renamed_nested_entry(c["h"], used_list(c["h"], c["override"], False))):
                 key = "C07/agg/deser-nested-entry-keyed-by-renamed-field"
                 what = ("after a dict renamed a nested field, a later '<field>._mapper' entry is found by serialization "
                         "(looked up under the field name) but not by deserialization (looked up under the current key), "
                         "or vice versa: the two aggregated mappers disagree for the nested class")
-            elif i not in sets["mismatch"]:
+            elif i not in mm_spec:
                 key = "C07/agg/same-entry-shortcut"
                 what = ("add_mapper_to_aggregation keeps an entry unchanged when the later dict maps the FIELD NAME "
                         "to the current key, although the dict also renames that current key")
@@ -929,14 +1175,18 @@ def run(rep, tier):
                 key = "C07/keys/not-the-image-under-the-declared-chain"
                 what = ("aggregated mapper or serialized key set differs from rename_chain over the declared mappers "
                         "(and from the model of the pinned code)")
-            rep.finding(key, what, {"h": c["h"], "override": c["override"], "x": c["x"], "clause": "keys",
+            rep.finding(key, what, {"h": c["h"], "override": c["override"], "x": c["x"], "entry": c.get("entry", "wrapper"), "history": c.get("history", "fresh"),
+                                    "clause": "keys" if (i in doc_level or i in witness) else "agg",
                                     "python": python_src(c, o[1])})
-        for flag, app, cap, mod in ((False, "rt_app_F", "rt_cap_F", "rt_mod_F"), (True, "rt_app_T", "rt_cap_T", "rt_mod_T")):
+        for flag, app, cap, mod, unm in ((False, "rt_app_F", "rt_cap_F", "rt_mod_F", "rt_unm_F"),
+                                         (True, "rt_app_T", "rt_cap_T", "rt_mod_T", "rt_unm_T")):
             for i in sorted(sets[app]):
                 c, o = by_idx[i]
-                if o[0][flag]["rt_equal"] or i in sets["spec_fail"]:
+                if o[0][flag]["rt_equal"]:
                     continue
-                if i in sets[cap] and i in sets[mod]:
+                if i in sets["spec_fail"] and (i in sets[mod] or i in sets[unm]):
+                    continue        # the pinned code's behaviour, explained by the key-set failure reported above
+                if i in sets[cap] and (i in sets[mod] or i in sets[unm]):
                     key = "C07/roundtrip/unpopulated-field-captures-key"
                     what = ("an unpopulated field whose NAME equals another field's key takes that field's value on "
                             "deserialization (non-strict fallback of get_processed_input)")
@@ -948,8 +1198,23 @@ def run(rep, tier):
                     key = "C07/roundtrip/differs"
                     what = "Deserializer(cls).deserialize(Serializer(x).serialize()) != x although no field is dropped and keys are distinct"
                 rep.finding(key, what + f" (camel_case_convert={flag})",
-                            {"h": c["h"], "override": c["override"], "x": c["x"], "clause": "roundtrip", "flag": flag,
+                            {"h": c["h"], "override": c["override"], "x": c["x"], "entry": c.get("entry", "wrapper"),
+                             "history": c.get("history", "fresh"), "clause": "roundtrip", "flag": flag,
                              "python": python_src(c, o[1])})
+        for i, c, o in live:
+            for flag in (False, True):
+                ob = o[0][flag]
+                if ob.get("rt_equal") and ob.get("default_equal") is False:
+                    if ob.get("default_fields_equal"):
+                        key = "C07/roundtrip/function-default-keeps-renamed-keys-as-attributes"
+                        what = ("deserialize_structure(cls, serialize(x)) with its default keep_undefined=True stores every "
+                                "renamed key of the document as an extra attribute, so the result != x although all fields agree")
+                    else:
+                        key = "C07/roundtrip/function-default-differs"
+                        what = "deserialize_structure(cls, serialize(x)) != x with the function's defaults, while keep_undefined=False round-trips"
+                    rep.finding(key, what + f" (camel_case_convert={flag})",
+                                {"h": c["h"], "override": c["override"], "x": c["x"], "entry": "function",
+                                 "clause": "roundtrip-default", "flag": flag, "python": python_src(c, o[1])})
         if mism and not rep.violations:
             i = mism[0]
             c, o = by_idx[i]
@@ -957,7 +1222,7 @@ def run(rep, tier):
             rep.broken("correspondence:mappers",
                        f"model (Ser/Mappers.v) and typedpy differ on {len(mism)} generated cases (parts: {parts}); "
                        "no clause of C07 failed on any explored input",
-                       {"h": c["h"], "override": c["override"], "x": c["x"], "parts": parts,
+                       {"h": c["h"], "override": c["override"], "x": c["x"], "entry": c.get("entry", "wrapper"), "history": c.get("history", "fresh"), "parts": parts,
                         "observed": {str(f): {k: o[0][f][k] for k in ("ser_agg", "des_agg", "doc", "back")} for f in (False, True)},
                         "python": python_src(c, o[1])})
         elif mism:
@@ -967,8 +1232,15 @@ def run(rep, tier):
         from harness.props.c17 import broken_build
         broken_build(rep)
     return rep.finish(
-        rule="cases = single-inheritance hierarchies of depth 1..3 under EVERY assignment of {none, dict, TO_LOWERCASE, "
-             "TO_CAMELCASE, list chain} per class (155 assignments, each several times with fresh fields/dicts/nesting), "
-             "nested classes with own mappers reached directly / through Array / through Set up to two levels down, "
-             "field names of three shapes, optional explicit mapper, camel_case_convert off and on; "
-             "distinct = (assignment, nesting kinds, explicit mapper?) ; wrappers = valid mapper / one non-field key")
+        rule="stream mappers: single-inheritance hierarchies of depth 1..3 under EVERY assignment of {none, dict, TO_LOWERCASE, "
+             "TO_CAMELCASE, list chain} per class (155 assignments, each several times with fresh fields/dicts/nesting; dicts "
+             "include shifts/cycles over sibling names), nested classes with own mappers reached directly / through Array / "
+             "through Set up to two levels down, field names of three shapes, optional explicit mapper, falsy values; "
+             "stream sibling-lattice: classes with fields a,b(,c) of every kind combination x EVERY collision-free rename onto "
+             "{own name, sibling names, fresh key} x placement {own mapper, subclass mapper, explicit mapper, [dict, TO_CAMELCASE], "
+             "[TO_LOWERCASE, dict], split over base/subclass} with pairwise different per-class mappers on the nested classes "
+             "(2 fields: full product; 3 fields: sample) and optional '<x>._mapper' entries; stream falsy-lattice: the same shapes "
+             "with every value falsy (0, '', False, 0.0, empty nested structure, empty Array/Set); every case with "
+             "camel_case_convert off and on, through Serializer/Deserializer or serialize()/deserialize_structure(), on a fresh "
+             "class or after the class was served under another mapper; distinct = (kinds, renames, assignment, explicit mapper?); "
+             "wrappers = valid mapper / one non-field key")
